@@ -25,6 +25,16 @@
     that: C13_certified, C13_size_partial, C13_atmost_partial.
   * product: C13_product (table of `__mul_ttcfg__` = intersection, outright),
     C13_product_sound (after `clean`, outright), C13_product_certified (after `clean`, equality).
+  * THE CONSTRUCTION ITSELF (second half of the file): the worklist closes and is exact
+    (C13_saturation_closed / _complete / _exact), `clean()` preserves the language (C13_clean_lang) and
+    guarantees exactly "first arguments kept" (C13_clean_first; the rest is finding C13-F5, proved
+    unrepairable by rule removal: finding_C13_F5_no_repair), `programs()` = size of the language of
+    every table (C13_programs), constructed grammars are typed (C13_product_constructed needs no
+    certificate); TOTAL CORRECTNESS with explicit fuel: C13_clean_terminates, C13_programs_terminates,
+    C13_size_total, C13_atmost_total_partial (hypothesis uncountedRanked; finding_C13_F9: finite
+    language, construction never returns), C13_product_terminates, C13_product_size_total;
+    type request: C13_type_request_size / _atmost / _product.  The certificate theorems below
+    (`_partial`, `_certified`) are kept: they hold for ANY table, whatever produced it.
   * clean tables: `closedOK` (verified checker) ⇒ every partial derivation can be completed
     (C13_clean) and `programs()` = size of the language (C13_count); `clean` adds no program
     (C13_clean_sound).
@@ -49,6 +59,7 @@ import PS.Proofs.TtcfgTotal
 import PS.Proofs.TtcfgAtMostTerm
 import PS.Proofs.TtcfgAtMostDiverge
 import PS.Proofs.TtcfgTyped
+import PS.Proofs.TtcfgMulTerm
 namespace PS.T
 open PS PS.G
 
@@ -1085,5 +1096,64 @@ example : (match sizeConstraint small int 3 2 true true 100, sizeConstraint smal
         | .ok g => g.typeRequest == int && PS.G.contains g.G (leaf one) && !(PS.G.contains g.G (.node plus [leaf one, leaf one]))
         | _ => false)
     | _, _ => false) = true := by decide +kernel
+
+/-- **`clean()` returns on the product table**: the machine of `__mul_ttcfg__`'s table projects onto
+    the machine of the left factor, so a rank of the left factor's machine bounds pass 1 and every
+    inner pass; at most `|rules1|·|rules2| + 1` passes. -/
+theorem C13_product_terminates {S T U V : Type} [DecidableEq S] [DecidableEq T] [DecidableEq U] [DecidableEq V]
+    (G1 : TT S T) (G2 : TT U V) (hag : ArgsAgree G1 G2) (b : Nat)
+    (hb : ∀ e ∈ G1.rules, e.2.length ≤ b) (hr1 : rowsNodup G1 = true)
+    (rk1 : CConfig S T → Nat) (hdec1 : ∀ c d, CStep G1 c d → rk1 d < rk1 c) (fuel : Nat)
+    (hf : satBound b (rk1 (projL ((mulRaw G1 G2).start, []))) + G1.rules.length * G2.rules.length + 1 ≤ fuel) :
+    ∃ G, cleanFixed (mulRaw G1 G2) fuel = .ok G :=
+  mul_clean_terminates G1 G2 hag b hb hr1 rk1 hdec1 fuel hf
+
+/-- **the product of two size-bounded grammars, total correctness**: both constructors return
+    (`C13_size_total`), and with `fuel' ≥ satBound b (k1 + 1) + |rules1|·|rules2| + 1` so does
+    `g1 * g2`; it reports `request` and contains exactly the programs common to both. -/
+theorem C13_product_size_total (dsl : Dsl) (request : Ty) (hd : noUnknownDsl dsl request = true) (k1 k2 : Nat) (nG : Int)
+    (fuel : Nat) (g1 g2 : TTG Ctx (Nat × Nat)) (h1 : sizeConstraint dsl request k1 nG true true fuel = .ok g1)
+    (h2 : sizeConstraint dsl request k2 nG true true fuel = .ok g2) (fuel' : Nat)
+    (hf : satBound (request.arguments.length + dsl.prims.length) (k1 + 1) + g1.G.rules.length * g2.G.rules.length + 1 ≤ fuel') :
+    ∃ g, mulTTG g1 g2 fuel' = .ok g ∧ g.typeRequest = request ∧
+      ∀ t, PS.G.contains g.G t = (PS.G.contains g1.G t && PS.G.contains g2.G t) := by
+  have h1' := h1
+  have h2' := h2
+  unfold sizeConstraint at h1 h2
+  cases s1 : saturationTable (sizeBuilder dsl nG k1 true) dsl.prims request true fuel with
+  | none => simp [s1] at h1
+  | some G01 =>
+    simp only [s1] at h1
+    cases c1 : clean G01 fuel with
+    | ok G1 =>
+      simp only [c1, Res.ok.injEq] at h1
+      cases s2 : saturationTable (sizeBuilder dsl nG k2 true) dsl.prims request true fuel with
+      | none => simp [s2] at h2
+      | some G02 =>
+        simp only [s2] at h2
+        cases c2 : clean G02 fuel with
+        | ok G2 =>
+          simp only [c2, Res.ok.injEq] at h2
+          subst h1; subst h2
+          obtain ⟨m1, m2, m3⟩ := constructed_machine (sizeBuilder dsl nG k1 true) dsl request hd (sizeRank k1)
+            (size_rank dsl request nG k1 true) true fuel G01 G1 s1 c1
+          obtain ⟨_, u1, _⟩ := saturation_countHyps (sizeBuilder dsl nG k1 true) dsl request true fuel G01 hd s1
+          obtain ⟨_, u2, _⟩ := saturation_countHyps (sizeBuilder dsl nG k2 true) dsl request true fuel G02 hd s2
+          have t1 := clean_typedOK G01 G1 u1 fuel c1 (saturation_typedOK _ dsl.prims request true fuel G01 s1)
+          have t2 := clean_typedOK G02 G2 u2 fuel c2 (saturation_typedOK _ dsl.prims request true fuel G02 s2)
+          have hstart : sizeRank k1 (projL ((mulRaw G1 G2).start, [])) = k1 + 1 := by
+            have e1 : G1.start = (request.returns, ([], (0, 0))) := by
+              rw [clean_start G01 G1 fuel c1, (saturationTable_spec _ dsl.prims request true fuel G01 s1).1]; rfl
+            simp [sizeRank, projL, mulRaw, e1]
+          obtain ⟨G, hG⟩ := C13_product_terminates G1 G2 (argsAgree_of_typed G1 G2 t1 t2) _ m2 m3 (sizeRank k1) m1 fuel'
+            (by rw [hstart]; exact hf)
+          refine ⟨⟨G, request⟩, ?_, rfl, ?_⟩
+          · unfold mulTTG; simp only; rw [hG]
+          · intro t
+            exact C13_product_constructed _ _ dsl dsl request hd fuel fuel G01 G1 G02 G2 s1 c1 s2 c2 hd fuel' G hG t
+        | fuel => simp [c2] at h2
+        | keyError => simp [c2] at h2
+    | fuel => simp [c1] at h1
+    | keyError => simp [c1] at h1
 
 end PS.T
